@@ -29,6 +29,8 @@ type Case struct {
 	Settle       int // extra ticks (with scheduling freedom, no new requests) before the final drain
 	CrashBetween int // crash between steps with probability 1/CrashBetween
 	ExtraTicks   int // after each step's tick, 0..ExtraTicks further ticks at the same clock value
+	CrashAt      int  // 1-based crash opportunity at which the kernel crashes (0 = none)
+	StopOnCrash  bool // end the timeline as soon as the kernel has crashed (crash-point enumeration)
 	Prime        int // up to Prime promises are created (deterministically, no faults) before the timeline starts
 	Setup        func(s *Sim)
 	PerStep      func(s *Sim, step int)
@@ -44,6 +46,8 @@ type Campaign struct {
 	Classify func(s *Sim) (labels []string, nontrivial bool, signature string)
 	// Extra oracles evaluated on the finished simulation
 	Extra func(s *Sim) []Violation
+	// Custom replaces Build+RunCase: it runs the case itself and returns the simulation and extra violations
+	Custom func(d D, dir string) (*Sim, []Violation)
 	// Finish may add counters to the statistics before they are written
 	Finish func(st *core.Stats)
 }
@@ -95,6 +99,7 @@ func NextDeadline(sn core.Snapshot, now int64) int64 {
 // RunCase executes the timeline of c on a fresh simulator and returns it (caller closes).
 func RunCase(d D, c *Case, dir string) *Sim {
 	s := New(d, c.Cfg, c.Prof, dir)
+	s.CrashAt = c.CrashAt - 1
 	if c.Gen != nil && c.Gen.Dispatched == nil {
 		c.Gen.Dispatched = func() [][2]any {
 			var out [][2]any
@@ -137,15 +142,26 @@ func RunCase(d D, c *Case, dir string) *Sim {
 		for n := d.Int(0, c.MaxRq, "nreq"); n > 0 && c.Gen != nil; n-- {
 			s.Submit(c.Gen.Req(s.Now))
 		}
+		if c.StopOnCrash && s.Inc > 0 {
+			return s
+		}
 		s.step(d, c)
+		if c.StopOnCrash && s.Inc > 0 {
+			return s
+		}
 		if s.crashAllowed() && d.OneIn(c.CrashBetween, "crashbetween") {
 			s.Crash()
 		}
 	}
 	for i := 0; i < c.Settle; i++ {
 		s.step(d, c)
+		if c.StopOnCrash && s.Inc > 0 {
+			return s
+		}
 	}
-	s.Drain(60)
+	if !c.StopOnCrash {
+		s.Drain(60)
+	}
 	return s
 }
 
@@ -190,12 +206,20 @@ func RunCampaign(t *testing.T, c Campaign) {
 	}
 	known := core.KnownKeys()
 	rapid.Check(t, func(rt *rapid.T) {
-		d := D{rt}
-		cs := c.Build(d)
-		s := RunCase(d, cs, dir)
+		d := D{T: rt}
+		var cs *Case
+		var s *Sim
+		var pre []Violation
+		if c.Custom != nil {
+			s, pre = c.Custom(d, dir)
+			cs = &Case{}
+		} else {
+			cs = c.Build(d)
+			s = RunCase(d, cs, dir)
+		}
 		defer s.Close()
 		stats.Eval()
-		vs := Judge(s)
+		vs := append(pre, Judge(s)...)
 		if c.Extra != nil {
 			vs = append(vs, c.Extra(s)...)
 		}
